@@ -155,3 +155,60 @@ func checkFuzzyThreaded(c *Ctx, r *Report) {
 		r.OK(rule, construct, c.Pos(call.Pos()), "range over the input; helper(inputByte, rest) with rest the helper's previous second result")
 	}
 }
+
+// checkWritePrimitives: the three channel write primitives every exchange is built from. Write hands the caller's
+// bytes unchanged to the transport; WriteReturn writes the configured return character(s); WriteAndReturn is Write
+// followed -- only when it succeeded -- by exactly one WriteReturn.
+func checkWritePrimitives(c *Ctx, r *Report) {
+	rule := "C01/write-primitives"
+	w := c.LookupFunc("channel", "Channel", "Write")
+	wr := c.LookupFunc("channel", "Channel", "WriteReturn")
+	war := c.LookupFunc("channel", "Channel", "WriteAndReturn")
+	tw := c.LookupFunc("transport", "Transport", "Write")
+	if w == nil || wr == nil || war == nil || tw == nil {
+		r.Anchor(rule, "(*channel.Channel).Write / WriteReturn / WriteAndReturn / (*transport.Transport).Write")
+		return
+	}
+	// Write
+	{
+		calls := staticCallsTo(w, tw)
+		ok := len(calls) == 1 && sameParam(calls[0].Common().Args[1], w.Params[1])
+		r.Check(ok, rule, "Channel.Write forwards its bytes", c.Pos(w.Pos()), "Transport.Write(b) with b the parameter",
+			"Channel.Write does not hand exactly the caller's byte slice to Transport.Write once: what the device receives differs from what the operation wrote")
+	}
+	// WriteReturn
+	{
+		calls := staticCallsTo(wr, w)
+		ok := len(calls) == 1 && isFieldLoadNamed(calls[0].Common().Args[1], "ReturnChar")
+		if ok {
+			if red, isC := constBool(calls[0].Common().Args[2]); !isC || red {
+				ok = false
+			}
+		}
+		r.Check(ok, rule, "WriteReturn writes the return character", c.Pos(wr.Pos()), "Write(c.ReturnChar, false)",
+			"WriteReturn does not write exactly the configured return character(s) once")
+	}
+	// WriteAndReturn
+	{
+		ws, rs := staticCallsTo(war, w), staticCallsTo(war, wr)
+		ok := len(ws) == 1 && len(rs) == 1
+		msg := "WriteAndReturn is not one Write followed by one WriteReturn"
+		if ok {
+			if !sameParam(ws[0].Common().Args[1], war.Params[1]) || !sameParam(ws[0].Common().Args[2], war.Params[2]) {
+				ok, msg = false, "WriteAndReturn does not pass its bytes and its redaction flag to Write unchanged"
+			} else if !dominatesInstr(ws[0], rs[0]) {
+				ok, msg = false, "the return is not written after the bytes"
+			} else {
+				errs := errResultsOf(ws[0].(*ssa.Call))
+				guarded := len(errs) == 1 && guardedBy(rs[0], func(v ssa.Value, t bool) bool {
+					x, nonNilOnTrue, isNil := nilCheck(v)
+					return isNil && x == errs[0] && t != nonNilOnTrue
+				})
+				if !guarded {
+					ok, msg = false, "the return is written although writing the bytes failed (or the write error is not tested)"
+				}
+			}
+		}
+		r.Check(ok, rule, "WriteAndReturn = Write then WriteReturn", c.Pos(war.Pos()), "Write(b, r); on success WriteReturn()", msg)
+	}
+}
